@@ -13,7 +13,7 @@ import (
 )
 
 const maxT = 8
-const maxL = 64
+const maxL = 1024
 
 type sched struct {
 	active          bool
@@ -26,6 +26,7 @@ type sched struct {
 	writer          [maxL]int // owner+1
 	readers         [maxL]int
 	nlocks          int
+	gen             int // number of the execution: a mutex that outlives one (package level) gets a new id in the next
 	prefix          [4096]int
 	plen, pos       int
 	trace, nen, run [4096]int
@@ -138,6 +139,7 @@ func Init(n int, prefix []int) {
 		s.writer[i], s.readers[i] = 0, 0
 	}
 	s.nlocks = 1
+	s.gen++
 	s.active = true
 }
 
@@ -179,17 +181,23 @@ func Finish() (trace, nen, run []int, deadlock bool) {
 	return trace, nen, run, s.deadlock
 }
 
+// lid identifies a mutex within one execution.
+type lid struct{ id, gen int }
+
 //go:norace
-func (s *sched) lockID(p *int) int {
-	if *p == 0 {
-		*p = s.nlocks
+func (s *sched) lockID(p *lid) int {
+	if p.id == 0 || p.gen != s.gen {
+		if s.nlocks >= maxL {
+			panic("vsync: more than maxL mutexes in one execution")
+		}
+		p.id, p.gen = s.nlocks, s.gen
 		s.nlocks++
 	}
-	return *p
+	return p.id
 }
 
 //go:norace
-func acquire(idp *int, mode int) {
+func acquire(idp *lid, mode int) {
 	s := &S
 	if !s.active {
 		return
@@ -207,7 +215,7 @@ func acquire(idp *int, mode int) {
 }
 
 //go:norace
-func release(idp *int, mode int) {
+func release(idp *lid, mode int) {
 	s := &S
 	if !s.active {
 		return
@@ -224,7 +232,7 @@ func release(idp *int, mode int) {
 // The real mutex is taken after the scheduler granted it (never blocks) so the race detector still
 // sees the code's own synchronisation.
 type Mutex struct {
-	id   int
+	id   lid
 	real sync.Mutex
 }
 
@@ -232,7 +240,7 @@ func (m *Mutex) Lock()   { acquire(&m.id, 1); m.real.Lock() }
 func (m *Mutex) Unlock() { m.real.Unlock(); release(&m.id, 1) }
 
 type RWMutex struct {
-	id   int
+	id   lid
 	real sync.RWMutex
 }
 
